@@ -4,7 +4,7 @@ CG = dict(units=["type.c"], mode="dfcc", enforce="gen_expr", rec=True, replace=[
 META = dict(
     level="other",
     claim="Caller side of the System V calling convention, per signature: the real gen_expr(ND_FUNCALL) (push_args, push_args2, push_struct, has_flonum, register loading loop, alignment padding) is executed on the ghost machine and, at the emitted call instruction, every argument is where psABI 3.2.3 places it (general/vector register by eightbyte class, memory arguments in order at rsp), %al counts the vector registers, rsp is 16-byte aligned, and afterwards the stack is restored. Argument values and struct contents are symbolic (proof per signature); the set of signatures is a chosen list that exhausts the general and vector registers with scalars and all six small-aggregate classes, so the quantifier over signatures is bounded.",
-    note="Trusted: CBMC, ghost machine, spec/psabi_call.h. Not covered in this revision: callee-side parameter homes and register spill, struct returns, variadic register save area and va_arg. Known finding: long double (16-byte aligned) memory arguments are not aligned.",
+    note="Trusted: CBMC, ghost machine, spec/psabi_call.h. Also: callee side (assign_lvar_offsets + the emit_text prologue stores: every parameter's home receives the register/stack slot the psABI assigns, per signature), aggregate returns <= 16 bytes (copy_ret_buffer / copy_struct_reg per class) and > 16 bytes (copy_struct_mem), has_flonum eightbyte classification on four shape families. Not covered: variadic register save area and va_arg, narrow return value normalisation. Known finding F06c: long double (16-byte aligned) memory arguments are not aligned.",
     functions=["codegen.c:gen_expr", "codegen.c:push_args", "codegen.c:push_args2", "codegen.c:push_struct", "codegen.c:has_flonum", "codegen.c:struct_regs", "codegen.c:has_flonum1", "codegen.c:has_flonum2", "codegen.c:popf", "codegen.c:pop", "codegen.c:pushf", "codegen.c:push", "codegen.c:assign_lvar_offsets", "codegen.c:emit_text", "codegen.c:store_gp", "codegen.c:store_fp", "codegen.c:copy_struct_reg", "codegen.c:copy_ret_buffer"],
     trusted_base=["CBMC 6.11", "spec/x86_ghost.h", "spec/psabi_call.h"],
     assumptions=["argument expressions are abstract (their values/addresses symbolic)", "the callee clobbers caller-saved registers only"],
